@@ -9,10 +9,14 @@ def run(chk, tier, seed):
     for mode in ("plain", "asanx"):
         jobs = [dict(tag="e%d" % s, args=["enum", ml, s, nsh, "{out}"]) for s in range(nsh)]
         jobs.append(dict(tag="rand", args=["rand", 60 if tier == "quick" else 400, seed, "{out}"]))
+        jobs.append(dict(tag="misc", args=["misc", seed, "{out}"]))
         refcheck.gen_and_validate(chk, "strings", jobs, "StrTrace", mode=mode, threads=16, timeout=1500)
     chk.cov["exhaustive"] = not chk.infra
     chk.cov["rule"] = ("every string up to length 3 (quick) / 4 (thorough) over {space, tab, LF, CR, 'a', 'B', ',', '\"', 0xE9} and seeded random longer "
                        "strings: the three trims, unchar, the four replace modes x 5 token lists x 4 words, bounded copies for every buffer size 1..n+2 "
                        "and byte count 0..n, reversal, case conversion, tokenizer and qstrtokenizer with two delimiter sets, the line reader, "
-                       "dup_between; destination buffers are exactly sized between canaries; plain and ASan+UBSan builds; TLC evaluates the "
+                       "dup_between, formatted append/duplicate (every split of every string, results around 1024/2048/4096 characters), qmemdup, qstrtest with a "
+                       "caller's class; mode misc: qstr_is_ip4addr on every 3/4-part (and sampled 5-part) combination of {0 1 255 256 '' a 01 99} and on one odd part among "
+                       "valid ones, qstr_is_email on every string up to length 5 over {a 1 @ . - blank} and on local@domain pools (only the clear cases "
+                       "decided), qstr_comma_number at every digit-count boundary, both int extremes and random values, qstrunique format; destination buffers are exactly sized between canaries; plain and ASan+UBSan builds; TLC evaluates the "
                        "StrRef.tla definitions on every record; each record is a distinct argument tuple")
